@@ -540,6 +540,40 @@ func (c *c18) resourceManagerStagger() {
 	c.ev(kit.M{"e": "ret", "p": 0, "op": "close"})
 }
 
+// resourceManagerPair: two independent managers are asked for the SAME key string at the same
+// time (the repository itself keeps two managers keyed by server address): each must create and
+// hand out its own resource.  The history names the two (manager, key) pairs "a" and "b".
+func (c *c18) resourceManagerPair() {
+	c.ev(kit.M{"e": "reset", "kind": "rm"})
+	ms := map[string]*syncx.ResourceManager{"a": syncx.NewResourceManager(), "b": syncx.NewResourceManager()}
+	g := 4 + c.rng.Intn(5)
+	c.run(g, func(p int, r *rand.Rand) {
+		k := "a"
+		if p%2 == 0 {
+			k = "b"
+		}
+		for i := 0; i < 1+r.Intn(2); i++ {
+			jitter(r)
+			c.ev(kit.M{"e": "inv", "p": p, "op": "get", "k": k})
+			res, err := ms[k].Get("shared-key", func() (io.Closer, error) {
+				id := c.uniq()
+				c.ev(kit.M{"e": "create", "p": p, "k": k, "r": id})
+				time.Sleep(time.Duration(50+r.Intn(300)) * time.Microsecond) // a slow create widens the overlap
+				return &c18closer{c: c, id: id}, nil
+			})
+			id := 0
+			if err == nil {
+				id = res.(*c18closer).id
+			}
+			c.ev(kit.M{"e": "ret", "p": p, "op": "get", "r": id})
+		}
+	})
+	c.ev(kit.M{"e": "inv", "p": 0, "op": "close"})
+	ms["a"].Close()
+	ms["b"].Close()
+	c.ev(kit.M{"e": "ret", "p": 0, "op": "close"})
+}
+
 func (c *c18) managedResource() {
 	c.ev(kit.M{"e": "reset", "kind": "mr"})
 	mr := syncx.NewManagedResource(func() any {
@@ -703,7 +737,14 @@ func TestVerifC18Trace(t *testing.T) {
 		{"pool", c.pool}, {"ref", c.refResource}, {"rm", c.resourceManager}, {"mr", c.managedResource},
 		{"spin", func() { c.spin(false) }}, {"barrier", func() { c.spin(true) }},
 		{"og", c.onceGuard}, {"dc", c.doneChan}, {"once", c.once},
-		{"poolage", c.poolAging}, {"ir", c.immutableResource},
+		{"poolage", func() {
+			for i := 0; i < 6; i++ { // cheap, sequential: several per round
+				c.poolAging()
+				c.n++
+			}
+			c.n--
+		}},
+		{"ir", c.immutableResource}, {"rmpair", c.resourceManagerPair},
 		{"mrstagger", func() {
 			for i := 0; i < kit.EnvInt("VERIF_STAGGER", 20); i++ {
 				c.managedResourceStagger()
